@@ -7,6 +7,8 @@ from runner import Batch, Spec
 from c15 import render_case
 
 SLOW_MS = 5000
+CAL_MS = 800          # what the calibration rendering (13 nested blockquotes around two words at width 10) takes on an idle machine of
+                      # the class this was developed on; a slower or loaded machine stretches the 5 s criterion by the same factor
 STYLED_BLOCKS = ("blockquote", "ul", "h1", "h2", "h3", "h4", "h5", "h6", "pre", "code", "b", "strong", "i", "em", "u", "ins", "s", "del", "mark", "a")
 BIG_RUNES = 2000000
 
@@ -122,6 +124,36 @@ class C06(Spec):
     def is_timing_reason(self, why):
         return " ms " in why
 
+    def confirm_failure(self, scratch, binary, case, batch):
+        """the slow case again, alone, between two calibration renderings: it counts only if it is slower than 5 s after dividing by
+        the factor by which the calibration rendering is slower than on an idle machine"""
+        import common
+        def cal():
+            c = render_case(1, "<blockquote>" * 13 + "two words" + "</blockquote>" * 13, [10])
+            c.op = "rendernm"
+            return c
+        trio = [cal(), case, cal()]
+        for i, c in enumerate(trio):
+            c.id = "q%d" % i
+        res = common.run_both(scratch, binary, trio, timeout=900, extra_env=dict(batch.env) if batch else {}, tag="confirm")
+        if isinstance(res, tuple):
+            res = res[0]
+        r = res[case.id]
+        cals = [res[c.id]["impl"][-1] for c in (trio[0], trio[2]) if res[c.id]["impl"]]
+        factor = max(1.0, (min(cals) / CAL_MS) if cals else 1.0)
+        if r["panic"] is not None:
+            return (case, r, "implementation panicked: " + r["panic"])
+        if not r["impl"]:
+            return (case, r, "no result when measured again")
+        ms = r["impl"][1] if case.op == "item" else r["impl"][-1]
+        if ms / factor > SLOW_MS:
+            return (case, r, "%s took %d ms for a %d byte document (machine factor %.1f: calibration rendering %s ms instead of %d)" % (
+                "a method" if case.op == "item" else "rendering", ms, case.meta.get("size", len(case.meta.get("content", ""))), factor, cals, CAL_MS))
+        why = self.post_check(case, r)
+        if why and not self.is_timing_reason(why):
+            return (case, r, why)
+        return None
+
     def known_key(self, case, res):
         if case.op == "rendernm":
             d = nest_depth(case.meta["content"])
@@ -129,8 +161,9 @@ class C06(Spec):
             if d > max(w, 1) - 1:
                 return "C06/indent-depth-exceeds-width"
             # every nesting level of a block that re-styles or pads its content rebuilds the whole text (quadratic string
-            # building); 6 or more such levels take seconds even for sub-kilobyte documents
-            if nest_depth(case.meta["content"], STYLED_BLOCKS) >= 6:
+            # building); 5 or more such levels take seconds even for sub-kilobyte documents (5 nested <pre> around one <video>
+            # at width 300: 345,000 runes, 2 s on an idle machine)
+            if nest_depth(case.meta["content"], STYLED_BLOCKS) >= 5:
                 return "C06/deeply-nested-styled-blocks"
         return None
 
